@@ -716,7 +716,8 @@ impl Image {
             let index = log_buffer_descriptor::index_by_position(position, self.position_bits_to_shift);
             assert!((0..log_buffer_descriptor::PARTITION_COUNT).contains(&index));
             let term_buffer = self.term_buffers[index as usize];
-            let limit_offset: Index = min(term_offset + block_length_limit, term_buffer.capacity());
+            // block_length_limit is any i32 (i32::MAX = "no limit"): the sum must not overflow
+            let limit_offset: Index = min(term_offset.saturating_add(block_length_limit), term_buffer.capacity());
             let resulting_offset: Index = scan(&term_buffer, term_offset, limit_offset);
             let length: Index = resulting_offset - term_offset;
 
